@@ -6,6 +6,7 @@ use arbitrary::Unstructured;
 use libfuzzer_sys::fuzz_target;
 
 fuzz_target!(|data: &[u8]| {
+    kvh::fuzz_init();
     let mut u = Unstructured::new(data);
     let Ok(t) = u.arbitrary::<(Vec<char>, (u8, usize), Option<(u8, usize)>)>() else { return };
     let chars: Vec<char> = t.0.into_iter().take(20).collect();
